@@ -1528,8 +1528,14 @@ def c13(ck):
     # the implementation's step structure composed with the contract: Conforms, ReturnsClean on every exit path
     ck.model("PolyseedImpl.tla", "PolyseedImpl.cfg", heap="16g", timeout=3000)
     model_shapes = impl_shapes(ck)
-    # contract |= property, all behaviours within the bound
-    ck.model("PolyseedMC.tla", "PolyseedMC_quick.cfg" if quick else "PolyseedMC_thorough.cfg", heap="16g", timeout=3400)
+    # contract |= property, all behaviours within the bound (with per-action coverage: an action never taken
+    # would mean the invariants were never exercised on it)
+    ck.model("PolyseedMC.tla", "PolyseedMC_quick.cfg" if quick else "PolyseedMC_thorough.cfg", heap="16g", timeout=3400,
+             extra=("-coverage", "1"))
+    cov = ck.models[-1].get("coverage", {})
+    for act in ("MCBegin", "MCDep", "MCReturn"):
+        if cov and cov.get(act, [0, 0])[0] == 0:
+            ck.infra.append("vacuous model run: action %s was never taken" % act)
     # spec -> code: behaviours of the model replayed through the library
     beh = mc_behaviours(ck, "PolyseedMC_replay.cfg" if quick else "PolyseedMC_replayfull.cfg", 400 if quick else 100000)
     ck.extra["model_behaviours_replayed"] = len(beh)
